@@ -76,6 +76,7 @@ def sessions_of(cases, rng, count):
                 out.append(dict(id="fs%d" % k, tab=tab, file=first, expr=None, stdin=lines, end=rng.choice([None, "exit"]), after=[]))
         whole = "".join(front.ensure_nl(t) for t in texts)
         out.append(dict(id="aa%d" % k, tab=tab, file=None, expr=whole, stdin=None))
+        out.append(dict(id="ff%d" % k, tab=tab, file=whole, expr="", stdin=None))          # the whole program as the preload file
         lines = one_line_statements(whole)
         if lines is not None:
             out.append(dict(id="ss%d" % k, tab=tab, file=None, expr=None, stdin=lines, end=rng.choice([None, "exit", "EXIT"]), after=[]))
